@@ -9,7 +9,7 @@ def _t(k):
     return k / GRID      # exact in binary floating point
 
 
-PATTERNS = ["perturbed", "random", "identical", "nested", "disjoint", "samelabel", "intgrid"]
+PATTERNS = ["perturbed", "random", "identical", "nested", "disjoint", "samelabel", "intgrid", "staircase"]
 LABEL_SETS = {
     "abc": ["A", "B", "C"],
     "words": ["cat", "cart", "dog", "do", "zebra"],
@@ -83,6 +83,25 @@ def gen_units(rng, n, sizes, pattern, labels, unlabelled=False, span=40):
                 tries += 1
                 if tries > 50:
                     segs.append((rng.randrange(0, 10 * GRID), rng.randrange(1, 4 * GRID)))
+            units.append(us)
+    elif pattern == "staircase":
+        # each annotator's copy of a reference unit is shifted by a multiple of ~0.9 durations: neighbours in the chain overlap, the ends of the
+        # chain are far apart (a tuple is good only through its middle members; which annotators come first matters to order-dependent code)
+        nref = max(maxs, 1)
+        pos = 0
+        order = list(range(n))
+        rng.shuffle(order)
+        ref = []
+        for _ in range(nref):
+            dur = rng.randrange(2 * GRID, 12 * GRID)
+            ref.append((pos, dur, lab()))
+            pos += dur * (n + 1)
+        for a in range(n):
+            us = set()
+            for i in sorted(rng.sample(range(nref), min(sizes[a], nref))):
+                p0, dur, l = ref[i]
+                sh = (order[a] * dur * 9) // 10
+                us.add((p0 + sh, p0 + sh + dur, l))
             units.append(us)
     elif pattern == "intgrid":
         # unit-length segments at small integer positions: positional dissimilarities are exact squares, so sums tie with the cut
